@@ -15,6 +15,7 @@ from rv.props import _c12_contracts as con
 from rv.props._c06_monitor import flat_bins, unify_edges
 
 ID = "C12"
+REPO_TESTS = "C12"   # the repository's tests also run under this property's monitors
 LEVEL = "exploration"
 RULE = ("seeded random 1-3-dimensional histograms with list edges (uniform ints/floats, "
         "random non-uniform, mixed, a few extreme widths that exercise the domain guard) and "
